@@ -38,6 +38,13 @@ func residueProbes(r *h.Rand) []*prog {
 		mk(`P9[{{range el}}x{{else}}e{{end}}{{range nl}}x{{else}}e{{end}}{{range nm}}x{{else}}e{{end}}|{{range li}}{{range el}}x{{else}}{{.}}{{end}}{{end}}]`, vNil()),
 		mk(`P10[{{ x := 1 }}{{include "/inc.jet"}}{{ exec("/inc.jet") }}{{.}}{{isset(x)}}]`, vStr("ctx")),
 	}
+	// without any variables the caller passes a nil VarMap: whatever an earlier execution bound there is gone
+	p11 := mk(`P11[{{isset(leak)}}{{isset(gl2)}}{{ g }}]`, vNil())
+	p11.vars = sx.L()
+	p12 := mk(`P12[{{ apiLetGlobal("gl2", 5) }}{{gl2}}{{isset(leak)}}]`, vNil())
+	p12.vars = sx.L()
+	p12.globals.Add(bind("apiLetGlobal", vJFunc("apiLetGlobal")))
+	ps = append(ps, p11, p12)
 	for _, p := range ps {
 		p.files["/inc.jet"] = `I{{.}}{{isset(x)}}`
 	}
@@ -73,7 +80,19 @@ func residueFailers(r *h.Rand) []*prog {
 		mk(`{{range li}}{{range ls}}{{range k, v := m}}{{fail("deep")}}{{end}}{{end}}{{end}}`),
 		mk(`{{block wrap()}}[{{include "/n1.jet"}}]{{end}}{{yield wrap() content}}` + secret + `{{ missing }}{{end}}`),
 		mk(`{{ x := "` + secret + `" }}{{ exec("/inc.jet", x) }}{{include "/inc.jet" x}}`),
+		novars(mk(`{{ apiLetGlobal("leak", "` + secret + `") }}[{{leak}}]{{ fail("after a root binding") }}`)),
+		novars(mk(`{{if true}}{{ apiLetGlobal("leak", "` + secret + `") }}{{ apiSetOrLet("gl2", 1) }}{{end}}{{ gl2 }}{{ missing }}`)),
+		novars(mk(`{{ apiLetGlobal("leak", "` + secret + `") }}[{{leak}}]`)),
 	}
+}
+
+// novars: the program is executed with a nil VarMap; the API functions it uses are Set globals
+func novars(p *prog) *prog {
+	p.vars = sx.L()
+	for _, n := range []string{"apiLetGlobal", "apiSetOrLet", "apiLet"} {
+		p.globals.Add(bind(n, vJFunc(n)))
+	}
+	return p
 }
 
 func execCmdOf(p *prog, store *sx.Sexp) *sx.Sexp {
